@@ -113,6 +113,45 @@ def correspondence(ctx):
         s.meta = {"big-sums": k}
         scns.append(s)
     bb.check(ctx, "stats-chains", scns, CMP, nontrivial=lambda s, m: len(m["delivered"]) >= 2)
+    panic_sites(ctx, r)
+
+
+def panic_sites(ctx, r):
+    """outside the property's domain (its hypotheses: every coinbase has an output, sums < 2^64) but inside the model: the
+    dev-profile panics of on_block — `outputs[0]` of an output-less coinbase-shaped transaction, u64 overflow of tx value /
+    total volume / total fees — must be the model's exit 101, and the neighbouring values just below must be exit 0"""
+    scns = []
+    M = (1 << 64) - 1
+    def chain(mod):
+        blocks = []
+        for h in range(3):
+            cb = GH.coinbase(h, [(50 * 10**8, GC.spk(r, "bitcoin", "p2pkh"))])
+            blocks.append(K.Block([cb, K.Tx([(GC.rb(r, 32), 0, b"\x01\x01", 1)], [(7, GC.spk(r, "bitcoin", "p2pkh"))])], time=1000 + 600 * h))
+        mod(blocks)
+        GH.link(blocks)
+        s = K.Scenario(coin="bitcoin", callback="simplestats")
+        GC.simple_layout(s, blocks)
+        return s
+    def no_outputs(bl):
+        bl[1].txs[0].outs = []
+    def no_outputs_late(bl):
+        bl[2].txs.append(K.Tx([(b"\0" * 32, 0xffffffff, b"\x01\x09", 0xffffffff)], []))
+    def tx_value_overflow(bl):
+        bl[1].txs[1].outs = [(1 << 63, b"\x51"), (1 << 63, b"\x51")]
+    def tx_value_max(bl):
+        bl[1].txs[1].outs = [(1 << 63, b"\x51"), ((1 << 63) - 1 - 50 * 10**8 * 2 - 7, b"\x51")]
+    def volume_overflow(bl):
+        bl[1].txs[1].outs = [(M - 10**10, b"\x51")]
+        bl[2].txs[1].outs = [(M - 10**10, b"\x51")]
+    def fee_overflow(bl):
+        bl[0].txs[0].outs = [(M, b"\x51")]
+        bl[1].txs[0].outs = [(M, b"\x51")]
+    for name, mod in [("no-outputs", no_outputs), ("no-outputs-late", no_outputs_late), ("tx-value-overflow", tx_value_overflow), ("tx-value-max", tx_value_max),
+                      ("volume-overflow", volume_overflow), ("fee-overflow", fee_overflow)]:
+        s = chain(mod)
+        s.meta = {"panic-site": name}
+        scns.append(s)
+    bb.check(ctx, "stats-panic-sites", scns, [bb.cmp_exit], nontrivial=lambda s, m: True, in_domain=lambda s, m: False)
 
 
 def replay(ctx, rep, corpus=None):
